@@ -773,7 +773,7 @@ def run(ctx):
     dist = {"ok": 0, "err": 0, "malformed": {}, "rows_per_camp_sheet": {}, "rows_per_trig_sheet": {},
             "flows_in_index": {}, "unit": {}, "start_mode": {}, "event_type": {}, "trigger_type": {}, "match_type": {},
             "explicit_uuids": 0, "ignore_rows": 0, "duplicate_definitions": 0, "model_unmodelled": 0,
-            "campaign_events_checked": 0, "triggers_checked": 0, "err_kinds_impl": {}}
+            "campaign_events_checked": 0, "triggers_checked": 0, "err_kinds_impl": {}, "err_cross_tab": {}}
     nontrivial = set()
     cases = []
     for i in range(n_cases):
@@ -832,6 +832,10 @@ def run(ctx):
             elif mr[0] == "err" and mr[1] == 12:
                 dist["model_unmodelled"] += 1
             elif mr[0] == "err":
+                # recorded, not judged: which error of the model meets which kind of stop of the implementation
+                # (the tie compares Ok/Err; C19_*_first_offending_row speak about the model's error only)
+                xk = f"model Err {mr[1]} / impl {res[1] if res[0] != 'ok' else 'ok'}"
+                dist["err_cross_tab"][xk] = dist["err_cross_tab"].get(xk, 0) + 1
                 if res[0] == "ok":
                     ctx.disagree("model rejects, implementation accepts", sheets_of(ac), f"Err {mr[1]}", project(res[1]))
             else:
